@@ -37,6 +37,7 @@ Definition k_sig : bytes := Eval compute in bs "sig".
 Definition k_revisit : bytes := Eval compute in bs "revisit-with-new-remainder".
 Definition k_lexical : bytes := Eval compute in bs "lexical-dotdot-across-symlink".
 Definition k_wildmid : bytes := Eval compute in bs "wildcard-middle-component-not-followed".
+Definition k_linkglob : bytes := Eval compute in bs "link-target-component-read-as-pattern".
 Definition k_term : bytes := Eval compute in bs "terminated-ok".
 Definition k_sorted : bytes := Eval compute in bs "sorted".
 Definition k_minimal : bytes := Eval compute in bs "minimal".
@@ -71,6 +72,7 @@ Definition run_1801 (input impl : sx) : sx :=
           if negb (no_revisit go_match view fuel reqs) then [sig k_revisit]
           else if negb (lexical_safe view reqs) then [sig k_lexical]
           else if negb (wild_last_only reqs) then [sig k_wildmid]
+          else if negb (links_literal view) then [sig k_linkglob]
           else []
         else [] in
       verdict m impl spec (SL (s ++ [flag k_sorted srt; flag k_minimal mini; flag k_nilok nilok;
@@ -126,10 +128,13 @@ Definition run_1805 (input impl : sx) : sx :=
           if negb (no_revisit go_match view fuel reqs) then [sig k_revisit]
           else if negb (lexical_safe view reqs) then [sig k_lexical]
           else if negb (wild_last_only reqs) then [sig k_wildmid]
+          else if negb (links_literal view) then [sig k_linkglob]
           else [] in
         (* no model of the filter walk here (that is C10): the "model" column repeats impl *)
         verdict impl impl (is_nil missing) (SL (s ++ [SL (SB k_missing :: map (fun q => SB (key q)) missing)]))
       end
-    | _ => v_specfail (SL []) (SL [flag k_walkok false])
+    | _ => (* NewFilterFS / the walk failed: a link target read as a (malformed) pattern makes the
+              include list invalid *)
+      v_specfail (SL []) (SL ((if negb (links_literal view) then [sig k_linkglob] else []) ++ [flag k_walkok false]))
     end
   end.
